@@ -23,18 +23,18 @@ Theorem C16_order : forall cf now initres evs inits gs st,
 Proof. exact session_order. Qed.
 Print Assumptions C16_order.
 
-(** [firstNr] in the pinned code and with the proposed repair (proposed_fixes/C16-first-number.diff;
-    the harness reads from the source which one the tree under test has). *)
-Theorem C16_first_number_pinned : forall cf now,
+(** [firstNr] in the current code (fix fec92f5, [mk_scfg] sets [sc_first_fix = true]) and before the
+    fix (the harness reads from the source which one the tree under test has). *)
+Theorem C16_first_number_before_fix : forall cf now,
   sc_first_fix cf = false -> firstNr cf now = findLastSegNr cf now + 1.
 Proof. exact firstNr_pinned. Qed.
-Theorem C16_first_number_repaired : forall cf now,
+Theorem C16_first_number_current : forall cf now,
   sc_first_fix cf = true -> firstNr cf now = Z.max (findLastSegNr cf now) (-1) + 1 + startNr (sc_cfg cf).
 Proof. exact firstNr_repaired. Qed.
-Theorem C16_first_number_repaired_example :
+Theorem C16_first_number_example :
   let c := {| startS := 0; startNr := 3; tsbdS := 60; ato := Some 0 |} in
-  let cf := mk_scfg_rcf RCeil true true [ {| ir_kind := RVideo; ir_tab := Some rep2s |} ] rep2s 8000 2000 c false true None false in
-  let cf0 := mk_scfg_rcf RCeil true true [ {| ir_kind := RVideo; ir_tab := Some rep2s |} ] rep2s 8000 2000 cfg0 false true None false in
+  let cf := mk_scfg [ {| ir_kind := RVideo; ir_tab := Some rep2s |} ] rep2s 8000 2000 c false true None false in
+  let cf0 := mk_scfg [ {| ir_kind := RVideo; ir_tab := Some rep2s |} ] rep2s 8000 2000 cfg0 false true None false in
   (let '(_, gs, _) := session cf 10000 [] [trig] in map (map (fun m => (mp_nr m, mp_now m, mp_ok m))) gs = [[(8, 12000, true)]]) /\
   (let '(_, gs, _) := session cf0 1000 [] [trig; trig] in map (map (fun m => (mp_nr m, mp_now m, mp_ok m))) gs = [[(0, 2000, true)]; [(1, 4000, true)]]).
 Proof. exact first_number_repaired_witness. Qed.
@@ -217,20 +217,22 @@ Theorem C16_gap_closed :
   /\ ph st = PRunning.
 Proof. exact gap_closed. Qed.
 
-(** With chunked transfer a request that writeSegment rejects ends the process; still reachable:
-    a session created before the first segment is complete asks for number -1. *)
-Theorem C16_chunked_crash_refuted :
+(** With chunked transfer a request that writeSegment rejects ends the process (the model's
+    [afterSend]); before fix fec92f5 a session created before the first segment is complete asked
+    for number -1 and hit it.  The hand-over defect itself is not repaired. *)
+Theorem C16_chunked_crash_refuted_before_fix :
   let c := {| startS := 0; startNr := 0; tsbdS := 60; ato := Some 1000 |} in
-  let cf := mk_scfg [ {| ir_kind := RVideo; ir_tab := Some rep2s |} ] rep2s 8000 2000 c false true None true in
+  let cf := mk_scfg_rcf RCeil true false [ {| ir_kind := RVideo; ir_tab := Some rep2s |} ] rep2s 8000 2000 c false true None true in
   let '(_, gs, st) := session cf 500 [] [trig; trig] in
   map (map (fun m => (mp_nr m, mp_ok m))) gs = [[(-1, false)]] /\
   ph st = PCrashed "startReadAndSendChunked: send on closed channel".
 Proof. exact chunked_crash_witness. Qed.
 
-(** A start number is ignored when the first number is chosen (live edge 7, first number 5). *)
-Theorem C16_startnr_refuted :
+(** Before fix fec92f5 a start number was ignored when the first number was chosen (live edge 7,
+    first number 5). *)
+Theorem C16_startnr_refuted_before_fix :
   let c := {| startS := 0; startNr := 3; tsbdS := 60; ato := Some 0 |} in
-  let cf := mk_scfg [ {| ir_kind := RVideo; ir_tab := Some rep2s |} ] rep2s 8000 2000 c false true None false in
+  let cf := mk_scfg_rcf RCeil true false [ {| ir_kind := RVideo; ir_tab := Some rep2s |} ] rep2s 8000 2000 c false true None false in
   (let '(_, gs, _) := session cf 10000 [] [trig] in map (map (fun m => (mp_nr m, mp_now m, mp_ok m))) gs = [[(5, 6000, true)]]) /\
   lookup rep2s 8000 c ByNumber 7 10000 = TOk {| origTime := 0; newTime := 720000; origNr := 1; newNr := 7; origDur := 180000; newDur := 180000; mtimescale := 90000 |} /\
   lookup rep2s 8000 c ByNumber 8 10000 = TTooEarly 2000.
